@@ -8,6 +8,7 @@ CONSTANTS
   Wipeouts = FALSE
   Collide = FALSE
   Times = {1, 2}
+  KeepGoing = {FALSE}
   Design = "legacy_order"
 SPECIFICATION Spec
 VIEW view
